@@ -37,50 +37,41 @@ Definition bit_lsb0 (b i : N) : bool := N.testbit b i.
 (** bit [i] (MSB 0 numbering) of a byte *)
 Definition bit_msb0 (b i : N) : bool := N.testbit b (7 - i).
 
+Definition bits_of_byte (msb0 : bool) (b : N) : list bool :=
+  map (fun i => if msb0 then bit_msb0 b i else bit_lsb0 b i) [0; 1; 2; 3; 4; 5; 6; 7].
+
+Definition bits_of_bytes (msb0 : bool) (bm : bytes) : list bool :=
+  flat_map (bits_of_byte msb0) bm.
+
 (** [pfn_regions_from_bitmap]: the maximal runs of set bits inside
     [start_pfn, end_pfn), each with the file position of its first element
     ([pos] advances by [cnt * elemsz] per run).  The C code finds the runs
     with [skip_clear_*]/[skip_set_*] (byte- and word-wise scans whose results
-    are clamped to [end_pfn]); here the bitmap is walked bit by bit.
-
-    State of the walk: [pfn] = number of the current bit, [cur] = start of the
-    run being collected, [pos] = file position for the next run. *)
-Record scan := { sc_cur : option N; sc_pos : N; sc_out : list pfn_region (* reversed *) }.
-
-Definition scan_bit (elemsz start_pfn end_pfn : N) (s : scan) (pfn : N) (b : bool) : scan :=
-  let live := b && (start_pfn <=? pfn) && (pfn <? end_pfn) in
-  match sc_cur s with
-  | None => if live then {| sc_cur := Some pfn; sc_pos := sc_pos s; sc_out := sc_out s |} else s
-  | Some st =>
-      if live then s
-      else {| sc_cur := None;
-              sc_pos := sc_pos s + (pfn - st) * elemsz;
-              sc_out := {| rg_pfn := st; rg_cnt := pfn - st; rg_pos := sc_pos s |} :: sc_out s |}
-  end.
-
-Definition scan_byte (msb0 : bool) (elemsz start_pfn end_pfn : N) (s : scan) (pfn b : N) : scan :=
-  fold_left (fun s i => scan_bit elemsz start_pfn end_pfn s (pfn + i)
-                          (if msb0 then bit_msb0 b i else bit_lsb0 b i))
-            [0; 1; 2; 3; 4; 5; 6; 7] s.
-
-Fixpoint scan_bytes (msb0 : bool) (elemsz start_pfn end_pfn : N) (s : scan) (pfn : N)
-         (bm : bytes) : scan * N :=
-  match bm with
-  | [] => (s, pfn)
+    are clamped to [end_pfn]); here the bitmap is walked bit by bit:
+    [pfn] = number of the current bit, [cur] = start of the run being
+    collected, [pos] = file position of the next run. *)
+Fixpoint runs (elemsz start_pfn end_pfn : N) (bits : list bool) (pfn pos : N) (cur : option N)
+  : list pfn_region :=
+  match bits with
+  | [] =>
+      match cur with
+      | Some st => [ {| rg_pfn := st; rg_cnt := pfn - st; rg_pos := pos |} ]
+      | None => []
+      end
   | b :: t =>
-      (* whole bytes outside the window cannot change the state *)
-      scan_bytes msb0 elemsz start_pfn end_pfn
-                 (scan_byte msb0 elemsz start_pfn end_pfn s pfn b) (pfn + 8) t
+      let live := b && (start_pfn <=? pfn) && (pfn <? end_pfn) in
+      match cur with
+      | None => runs elemsz start_pfn end_pfn t (pfn + 1) pos (if live then Some pfn else None)
+      | Some st =>
+          if live then runs elemsz start_pfn end_pfn t (pfn + 1) pos cur
+          else {| rg_pfn := st; rg_cnt := pfn - st; rg_pos := pos |}
+               :: runs elemsz start_pfn end_pfn t (pfn + 1) (pos + (pfn - st) * elemsz) None
+      end
   end.
 
 Definition regions_from_bitmap (msb0 : bool) (bm : bytes)
            (start_pfn end_pfn fileoff elemsz : N) : list pfn_region :=
-  let '(s, pfn) := scan_bytes msb0 elemsz start_pfn end_pfn
-                     {| sc_cur := None; sc_pos := fileoff; sc_out := [] |} 0 bm in
-  (* a run that reaches the end of the bitmap is closed at [end_pfn] or at the
-     last bit, whichever comes first *)
-  let s := scan_bit elemsz start_pfn end_pfn s (N.min pfn end_pfn) false in
-  rev (sc_out s).
+  runs elemsz start_pfn end_pfn (bits_of_bytes msb0 bm) 0 fileoff None.
 
 (** [find_pfn_region]: binary search for the region containing [pfn] or the
     closest higher one *)
